@@ -1626,6 +1626,54 @@ func (e *Engine) loopOrdinals(fn *ssa.Function, bo *blockOrder) map[*ssa.BasicBl
 	return out
 }
 
+// simpleCounter: the loop headed by h tests `*x < e` (signed), and the only store to x inside the
+// loop is `*x = *x + 1`.
+func simpleCounter(h *ssa.BasicBlock, body map[*ssa.BasicBlock]bool, x ssa.Value) bool {
+	if x == nil || len(h.Instrs) == 0 {
+		return false
+	}
+	isLoad := func(v ssa.Value) bool {
+		u, ok := v.(*ssa.UnOp)
+		return ok && u.Op == token.MUL && u.X == x
+	}
+	ifi, ok := h.Instrs[len(h.Instrs)-1].(*ssa.If)
+	if !ok {
+		return false
+	}
+	cmp, ok := ifi.Cond.(*ssa.BinOp)
+	if !ok || cmp.Op != token.LSS || !isLoad(cmp.X) {
+		return false
+	}
+	if b, ok := cmp.X.Type().Underlying().(*types.Basic); !ok || b.Info()&types.IsUnsigned != 0 || b.Info()&types.IsInteger == 0 {
+		return false
+	}
+	stores := 0
+	blocks := []*ssa.BasicBlock{h}
+	for b := range body {
+		if b != h {
+			blocks = append(blocks, b)
+		}
+	}
+	for _, b := range blocks {
+		for _, ins := range b.Instrs {
+			st, ok := ins.(*ssa.Store)
+			if !ok || st.Addr != x {
+				continue
+			}
+			stores++
+			add, ok := st.Val.(*ssa.BinOp)
+			if !ok || add.Op != token.ADD || !isLoad(add.X) {
+				return false
+			}
+			k, ok := add.Y.(*ssa.Const)
+			if !ok || k.Value == nil || k.Value.ExactString() != "1" {
+				return false
+			}
+		}
+	}
+	return stores == 1
+}
+
 type havocTarget struct {
 	heap string
 	ref  *Term
@@ -1668,6 +1716,11 @@ func (e *Engine) enterLoop(fr *Frame, st *State, h *ssa.BasicBlock, bo *blockOrd
 		c := cellByName[n]
 		st.cells[c] = tb.Fresh("L"+fmt.Sprint(ord)+"_"+c.name, e.sortOf(c.typ))
 		e.assumeWF(fr, st, st.cells[c], c.typ)
+		if st.cells[c].Sort == SBV64 && simpleCounter(h, bo.loops[h], c.key) {
+			// `for i := c; i < e; i++` with no other assignment to i in the loop: i never goes below
+			// its value at loop entry (i+1 cannot wrap, because i < e held in the same iteration)
+			e.addFact(st, tb.BVCmp("bvsge", st.cells[c], pre.cells[c]))
+		}
 		if c.name == "rangeindex" && st.cells[c].Sort == SBV64 {
 			// the hidden index of a range loop starts at -1 and is only ever incremented by one
 			// while it is below the (non-negative, < 2^48) length: it never goes below -1
